@@ -48,7 +48,7 @@ TEnter == /\ IsEvent("enter")
           /\ Len(stack') = Ev.depth
           /\ NewTop.path = Ev.path /\ NewTop.pos = 1 /\ NewTop.pend = <<>>
 
-TIo == IsEvent("io") /\ Ev.depth = 1 /\ Open /\ status' = "err_io"
+TIo == IsEvent("io") /\ Open /\ status' = "err_io"
 
 TDeliver == /\ IsEvent("deliver")
             /\ Top.path = Ev.path /\ Top.pos = Ev.pos /\ Len(stack) = Ev.depth
